@@ -30,6 +30,12 @@ func main() {
 	if v := os.Getenv("VP_VERIF_DIR"); v != "" {
 		verifDir = v
 	}
+	if os.Getenv("VP_SLOW") != "" {
+		interp.SlowLog = os.Stderr
+	}
+	if os.Getenv("VP_CROSSCHECK") != "" {
+		interp.CrossCheckIntervals = true
+	}
 	if len(os.Args) < 2 {
 		usage()
 	}
